@@ -1020,7 +1020,7 @@ func (a *analysis) apiReport(rep *report, det func(what, where string, pos token
 			if len(verdict) == 0 {
 				verdict = []string{"not-retained"}
 			}
-			row := [3]string{fn.qname, fmt.Sprintf("parameter %d", idx), strings.Join(verdict, "; ")}
+			row := [3]string{fn.qname, fmt.Sprintf("parameter %d [%s]", idx, kind), strings.Join(verdict, "; ")}
 			api[row] = true
 			if verdict[0] != "not-retained" {
 				det("api", fn.qname, fn.decl.Pos(), fmt.Sprintf("%s of %s is retained: %s", row[1], fn.qname, row[2]))
@@ -1159,7 +1159,16 @@ func coqOutput(rep, tagged *report, errMsg string) string {
 	}
 	fmt.Fprintf(&b, "(* function, what it writes through that is neither its receiver nor memory allocated in the call (a parameter, the result of a getter) *)\nDefinition foot_escapes : list (string * string) := %s.\n", clist(it))
 	t3("foot_api", "exported function of agent/, collection/, the module; result k / parameter n; fresh / not-retained or what it aliases, keeps, contains", rep.Api)
-	t3("foot_storage_writes", "method, receiver field (struct.[] for a slice or map receiver), how: storage reachable before the call is written in place", rep.StorageWrites)
+	it = nil
+	seenSW := map[string]bool{}
+	for _, e := range rep.StorageWrites {
+		k := fmt.Sprintf("(%s, %s)", cs(e[0]), cs(e[1]))
+		if !seenSW[k] {
+			seenSW[k] = true
+			it = append(it, k)
+		}
+	}
+	fmt.Fprintf(&b, "(* method, receiver field (struct.[] for a slice or map receiver): storage reachable before the call is written in place *)\nDefinition foot_storage_writes : list (string * string) := %s.\n", clist(it))
 	t3("foot_field_sets", "method, field, what the field is set to that is not freshly allocated", rep.FieldSets)
 	fmt.Fprintf(&b, "(* slice / map / raw-storage fields that are only ever set to fresh memory and never written in place *)\nDefinition foot_publish_once : list string := %s.\n", cstrs(rep.PublishOnce))
 	// the build with the verif tag
